@@ -186,6 +186,52 @@ func TestC04(t *testing.T) {
 					}
 				}
 			}
+			// epilogue (a third of the histories with >= 3 versions): an operator rolls the node back by one or more versions;
+			// every version that is still saved afterwards must read back from disk exactly as it was committed
+			if v := h.latest(); v >= 3 && rapid.SampledFrom([]int{0, 0, 1}).Draw(rt, "rollbackEpilogue") == 1 {
+				target := rapid.Int64Range(1, v-1).Draw(rt, "rollbackTo")
+				c.Opf("rollback to %d (latest %d), reopen, read every saved version", target, v)
+				c.Label("rollback-then-reopen")
+				if v-target >= 2 {
+					c.Label("rollback-over-two-or-more-versions")
+				}
+				if disk != nil {
+					if err := disk.reopen(); err != nil {
+						rt.Fatalf("harness: leveldb reopen: %v", err)
+					}
+					db = disk.db
+				}
+				rb := mountNode(db, o, h.names, nil)
+				var rerr error
+				if p := try(func() { rerr = rb.ms.RollbackVersion(target) }); p != nil || rerr != nil {
+					c.Violation("C04/rollback/fails", "RollbackVersion(%d) with latest %d: err=%v panic=%v", target, v, rerr, p)
+					return
+				}
+				if disk != nil {
+					if err := disk.reopen(); err != nil {
+						rt.Fatalf("harness: leveldb reopen: %v", err)
+					}
+					db = disk.db
+				}
+				nd, err = openNode(db, o, h.names, nil)
+				if err != nil {
+					c.Violation("C04/rollback/load-latest-fails", "LoadLatestVersion after RollbackVersion(%d): %v", target, err)
+					return
+				}
+				if got := nd.ms.LastCommitID(); !sameID(got, ids[target]) {
+					c.Violation("C04/rollback/last-commit-id-differs", "after RollbackVersion(%d) and reopen: LastCommitID %s, committed %s", target, idStr(got), idStr(ids[target]))
+				}
+				ck.multistore("rollback-reopen", fmt.Sprintf("after RollbackVersion(%d) of %d and reopen", target, v), h, nd.kvOf, h.snaps[target])
+				for pv := int64(1); pv <= target; pv++ {
+					view, verr := nd.lazyView(pv)
+					if verr != nil {
+						c.Violation("C04/rollback/saved-version-not-loadable", "after RollbackVersion(%d) of %d and reopen: LoadLazyVersion(%d): %v", target, v, pv, verr)
+						continue
+					}
+					ck.multistore("rollback-reopen-past", fmt.Sprintf("after RollbackVersion(%d) of %d and reopen, lazy view %d", target, v, pv), h,
+						func(st int) stypes.KVStore { return view.GetKVStore(nd.keys[st]) }, h.snaps[pv])
+				}
+			}
 			c.AddExtra("reads_compared", ck.reads)
 		})
 }
